@@ -5,6 +5,27 @@ import os
 VERIF = os.path.dirname(os.path.dirname(os.path.abspath(__file__)))
 
 CLAIMED = {
+    "C09": ("6/C09", "Theorems (Lean 4) over the native table that is REGENERATED from functions.py / interpreter.py / modules/*.ckl on every run: every "
+            "built-in whose class references an OS primitive (open, os.*, shutil.*, subprocess.*, FileInput, FileOutput, script loading) is "
+            "flagged secure=False (table_sound); every instantiation of such a class outside bind_native is guarded by `not secure` "
+            "(no_unguarded_instantiation); bundled modules bind only known natives; bind_native in secure mode binds nothing effectful for any "
+            "name and alias (bindNative_secure), and no sequence of binding/copying operations ever does (secure_invariant). A forgotten flag on "
+            "an edited or new built-in breaks table_sound at check time. Tied to the code by running a secure interpreter (legacy and not) under "
+            "sys.addaudithook: bind_native for every name/alias, every symbol of every bundled module with path- and command-like arguments in a "
+            "canary directory, every syntactic way to define/assign the flag, and a reachability walk for secure==False built-ins.",
+            "Effects are labels attached by a syntactic scan (an OS access through an indirection the scan does not know is caught only by the "
+            "audit-hook runs); the frame structure (flag stored in the base frame only) is covered by the oracle, not by a theorem."),
+    "C13": ("6/C13", "Theorems (Lean 4, all programs, all fuel): for EVERY interpretation of the ~100 unmodelled built-ins - including ones raising host "
+            "exceptions - evaluation of any node never yields a host failure (eval_no_host and the same for all 24 node-reachable functions of the "
+            "evaluator model); `invoke` is the single containment boundary (invoke_contains, invoke_boundary_host: a host failure of the callee "
+            "becomes the runtime error); all 50 modelled natives are host-free (callPure_no_host); index conversion and dereference are guarded "
+            "(index_guarded, deref_total); a runtime error is intercepted by catch all (runtime_error_is_catchable). Tied to the code by an "
+            "exhaustive run: every function of the base environment and bundled modules x all argument tuples of arity <= 2 (3 sampled) from a "
+            "29-value pool and every syntactic operator/indexing/iteration/spread/destructuring form - outcome value or catchable runtime error "
+            "within 2 s - plus outcome-class comparison with the model evaluator on operator forms.",
+            "Termination of built-ins on finite data is covered by the 2 s bound of the exhaustive runs (and by structural recursion of the "
+            "modelled natives), not by a theorem about the Python code; recursion depth and resource exhaustion proportional to an argument's "
+            "magnitude are out of scope."),
     "C01": ("6/C01", "Theorems (Lean 4): the scanner model is a total function of the text whose only failure is a syntax error with a non-empty "
             "message and a line >= 1 (scan_total, scan_deterministic); every int/decimal token it emits consists of digits (scan_int_tokens) so "
             "the parser's numeric conversions cannot fail; the parser model (51 mutually recursive functions mirroring parser.py production by "
